@@ -109,7 +109,7 @@ func checkDecode(c *hx.Case, what string, body hcl.Body, spec hcldec.Spec, ms *g
 		if diags.HasErrors() {
 			c.Class("nonconforming_with_errors")
 		}
-		if hasMultiLabelBlockMap(ms) && c.Known("blockmap-multilabel-empty-type") {
+		if want.EmptyMultiLabelMap && c.Known("blockmap-multilabel-empty-type") {
 			c.Class("excluded_known_blockmap_multilabel_empty")
 			return
 		}
@@ -128,7 +128,7 @@ func checkDecode(c *hx.Case, what string, body hcl.Body, spec hcldec.Spec, ms *g
 		c.Failf("nil-remain", "%s: PartialDecode returned a nil remaining body", what)
 	}
 	if !ref.Conforms(pgot.Type(), implied.WithoutOptionalAttributesDeep()) {
-		if hasMultiLabelBlockMap(ms) && c.Known("blockmap-multilabel-empty-type") {
+		if want.EmptyMultiLabelMap && c.Known("blockmap-multilabel-empty-type") {
 			return
 		}
 		if hasInconsistentTypesDiag(pdiags) && c.Known("blocklist-inconsistent-types-returns-dynamicval") {
@@ -140,10 +140,11 @@ func checkDecode(c *hx.Case, what string, body hcl.Body, spec hcldec.Spec, ms *g
 		c.Unspecified(want.Unspec)
 		return
 	}
-	if (diags.HasErrors() != want.Err || (!want.Err && !got.RawEquals(want.V))) && hasMultiLabelBlockMap(ms) && c.Known("blockmap-multilabel-empty-type") {
-		// the empty multi-label map is one level short; everything computed from it differs
-		c.Class("excluded_known_blockmap_multilabel_empty")
-		return
+	if want.EmptyMultiLabelMap {
+		// (the reference reproduces the known one-level-short empty map, so the comparison
+		// below stays strict; the hit is counted)
+		c.Known("blockmap-multilabel-empty-type")
+		c.Class("known_blockmap_multilabel_empty_reproduced")
 	}
 	if diags.HasErrors() != want.Err {
 		c.Set("decoded", got.GoString())
@@ -155,11 +156,11 @@ func checkDecode(c *hx.Case, what string, body hcl.Body, spec hcldec.Spec, ms *g
 }
 
 func TestC08_Decode(t *testing.T) {
-	hx.Run(t, "C08", "Decode", 15000,
+	hx.Run(t, "C08", "Decode", 20000,
 		"spec tree over every hcldec spec kind (depth<=3, within documented preconditions) and a body built from the spec and then perturbed (1-in-6: presence flipped, wrong literal type, wrong label count, zero/one/many blocks, extra items), native and (literal-only) JSON; oracle: no panic, hcldec.ImpliedType == documented rule, decoded type conforms to the implied type with and without errors (Decode and PartialDecode), error flag and value equal the reference decoder; non-trivial = a block-collection spec nested under another spec and an empty or erroneous branch exercised; distinct by (spec dump, body dump)",
 		func(c *hx.Case) {
 			t := c.T
-			ms := gen.DrawSpec(t, gen.SpecOpts{Depth: 3, AttrNames: specAttrPool, BlockTypes: specBlockPool})
+			ms := gen.DrawSpec(t, gen.SpecOpts{Depth: 3, AttrNames: specAttrPool, BlockTypes: specBlockPool, BlockBias: 25})
 			c.Set("spec", ms.Dump())
 			kinds := map[string]bool{}
 			specKinds(ms, kinds)
@@ -168,7 +169,7 @@ func TestC08_Decode(t *testing.T) {
 			dump := ast.DumpBody(body)
 			c.Set("body", dump)
 			spec := toHCLDec(ms)
-			want := ref.Decode(ms, body, nil, ref.NewEnv(nil))
+			want := ref.DecodeWith(ms, body, nil, ref.NewEnv(nil), ref.DecodeOpts{EmptyMultiLabelMapQuirk: hx.IsKnown("C08", "blockmap-multilabel-empty-type")})
 			if want.Err {
 				c.Class("reference_error")
 			} else {
